@@ -12,6 +12,10 @@
   (so no branch can raise NameError even when it runs out of band);
 * if/elif/else, while, for, break/continue/return, nesting depth <= 4.
 
+Rich programs take two more arguments, an object `o` (attributes v, w, flag) and a dict `d` (keys k, j, last) that
+exist before the call ("fixed structure"); `o.flag` and `d['last']` are only ever WRITTEN by the program, so the only
+observer is the caller: the oracle compares the final state of `o` and `d` as well as the result.
+
 Documented limits are not generated: writes through called functions/methods (closures here only read),
 for/while-else, mutation of collections.
 
@@ -27,6 +31,7 @@ class Obj(object):
     def __init__(self, v, w):
         self.v = v
         self.w = w
+        self.flag = 0
 '''
 
 INPUTS = [(1, 2, 3, [1, 2]), (0, 0, 0, []), (-1, 5, 2, [3, -1, 4]), (4, 1, 0, [2]), (2, -3, 1, [0, 5, 1, 2])]
@@ -129,6 +134,11 @@ class Gen(object):
             self.features.add('augassign')
             self.emit(ind, '%s %s= %s' % (v, r.choice(['+', '-']), self.iexpr(da, 1)))
             return da
+        if self.rich and c < 0.86:
+            # a PURE composite write (never read by the program): only the caller observes it
+            self.features.add('pure_composite_write')
+            self.emit(ind, r.choice(["o.flag = %s", "d['last'] = %s"]) % self.iexpr(da, 1))
+            return da
         if self.rich and self.uses_obj and c < 0.9:
             self.features.add('attr_store')
             self.emit(ind, 'o.%s = %s' % (r.choice(['v', 'w']), self.iexpr(da, 1)))
@@ -206,6 +216,10 @@ class Gen(object):
             self.emit(ind, 'if %s:' % self.bexpr(da, 1))
             self.emit(ind + '    ', 'return %s' % self.iexpr(da, 1))
             return da
+        if c < 0.965 and self.rich and depth >= 1:
+            cand = sorted(v for v in da if v in self.ivars)
+            if cand:
+                return self.closure_rebind(ind, da, depth, r.choice(cand))
         if c < 0.99 and self.rich and depth >= 2:
             F.add('nested_def')
             self.nfn += 1
@@ -223,6 +237,37 @@ class Gen(object):
             self.emit(ind, '%s = %s(%s)' % (v, g, self.iexpr(da, 1)))
             return da | {v, g}
         return self.assign(ind, da)
+
+    def closure_rebind(self, ind, da, depth, x):
+        """A read-only closure over `x`; then control flow that changes `x`; then ONE statement that calls the closure
+        and rebinds `x` (`x = g(e) + 1`): the only later reader of the changed `x` is the closure."""
+        r = self.rng
+        self.nfn += 1
+        g = 'g%d' % self.nfn
+        self.features.add('closure_rebind')
+        self.emit(ind, 'def %s(p):' % g)
+        if r.random() < 0.5:
+            self.emit(ind + '    ', 'return (p + %s)' % x)
+        else:
+            self.emit(ind + '    ', 'if p > %d:' % r.randrange(-1, 3))
+            self.emit(ind + '        ', 'return (%s - p)' % x)
+            self.emit(ind + '    ', 'return (%s * 2)' % x)
+        self.closures.append((g, {x}))
+        da = da | {g}
+        form = r.randrange(3)
+        if form == 0:
+            self.emit(ind, 'if %s:' % self.bexpr(da, 1))
+            self.emit(ind + '    ', '%s = %s' % (x, r.choice(['(%s * 10)' % x, '(%s + 7)' % x, self.iexpr(da, 1)])))
+        elif form == 1:
+            self.emit(ind, 'for %s in l:' % r.choice(['i', 'j', 'k']))
+            self.emit(ind + '    ', '%s = (%s + %s)' % (x, x, r.choice(['1', 'a', 'b'])))
+        else:
+            self.emit(ind, 'if %s:' % self.bexpr(da, 1))
+            self.emit(ind + '    ', '%s = %s' % (x, self.iexpr(da, 1)))
+            self.emit(ind, 'else:')
+            self.emit(ind + '    ', '%s += %d' % (x, r.randrange(1, 4)))
+        self.emit(ind, '%s = (%s(%s) + %d)' % (x, g, self.iexpr(da - {x}, 1) if (da - {x}) else 'a', r.randrange(0, 3)))
+        return da
 
     def nonlocal_closure(self, ind, da):
         """At the top level of f only: a closure that WRITES a variable of f through `nonlocal`, with its own control
@@ -272,13 +317,11 @@ class Gen(object):
 def make_program(rng, size=10, rich=False, midreturn=False):
     g = Gen(rng, size, rich, midreturn)
     ind = '    '
-    head = ['def f(a, b, c, l):']
+    head = ['def f(a, b, c, l, o, d):' if rich else 'def f(a, b, c, l):']
     if rich and rng.random() < 0.6:
         g.uses_obj = True
-        head.append('    o = Obj(a, b)')
     if rich and rng.random() < 0.5:
         g.uses_dict = True
-        head.append("    d = {'k': b, 'j': c}")
     da = set()
     # most variables are initialised; the others must be assigned on every path before they are read
     for v, e in (('x', 'a'), ('y', 'b'), ('z', 'c'), ('w', '0'), ('u', '1')):
